@@ -612,7 +612,7 @@ func (c *Config) UnmarshalYAML(unmarshal func(any) error) error {
 				// copy the global config so receiver-level mutations don't affect it
 				httpCfg := *c.Global.HTTPConfig
 				msteamsv2.HTTPConfig = &httpCfg
-			} else if msteamsv2.HTTPConfig.ProxyURL.URL == nil {
+			} else if msteamsv2.HTTPConfig.ProxyURL.URL == nil && !msteamsv2.HTTPConfig.ProxyFromEnvironment {
 				// receiver has a partial http_config but no proxy_url set,
 				// so inherit only the proxy_url from global, leaving any
 				// other proxy fields the receiver set (NoProxy, etc.) intact
